@@ -20,6 +20,9 @@ bool unit_controls(const amgcl::backend::crs<double> &A) { return verif_control:
 
 // instantiation only (not a control): move construction / move assignment / swap of the owning containers (C17 G.move-transfers-all)
 #include <utility>
+#include <amgcl/coarsening/rigid_body_modes.hpp>
+// instantiation only: public helper with an output container parameter (C10 / C15 F.resize-is-not-reset)
+int unit_rbm(const std::vector<double> &coo, std::vector<double> &B) { return amgcl::coarsening::rigid_body_modes(3, coo, B); }
 void unit_moves() {
     amgcl::backend::crs<double> a; amgcl::backend::crs<double> b(std::move(a)); a = std::move(b);
     amgcl::backend::numa_vector<double> v(4), w(4); v.swap(w);
